@@ -175,7 +175,8 @@ func recordingFinalName(filename string) string {
 }
 
 func deleteTempFiles(directory string) error {
-	matches, _ := filepath.Glob(filepath.Join(directory, "*."+cptvTempExt))
+	// A recording in progress consists of <name>.cptv.temp and the CPTV writer's scratch file <name>.cptv.temp.tmp.
+	matches, _ := filepath.Glob(filepath.Join(directory, "*."+cptvTempExt+"*"))
 	for _, filename := range matches {
 		if err := os.Remove(filename); err != nil {
 			return err
